@@ -1101,6 +1101,17 @@ class Interp:
                     a, b = (yes, v) if isinstance(op, ast.Is) else (v, yes)
                     t[p], f[p] = a, b
                     return (t if a else None), f
+                if isinstance(op, (ast.In, ast.NotIn)) and va is not TOP and isinstance(c, (ast.Set, ast.Tuple, ast.List)) \
+                        and c.elts and all(isinstance(x, ast.Constant) for x in c.elts):
+                    # x in {constants}: in the true branch x has the type of one of the constants (numbers compare across types)
+                    num = {int, bool, Decimal, float}
+                    ctypes = {type(x.value) for x in c.elts}
+                    keep = frozenset(x for x in va if x in ctypes or (x in num and ctypes & num) or x is Val)
+                    if isinstance(op, ast.In):
+                        t[p] = keep
+                        return (t if keep else None), f
+                    f[p] = keep
+                    return t, (f if keep else None)
                 if isinstance(op, ast.Eq) and va is not TOP:
                     cv = atoms_of(self.ev(c, env, Frame()))
                     if cv is not TOP and isinstance(c, ast.Constant):
